@@ -825,7 +825,7 @@ fn start(level_b: bool, free: bool, mode: &str, d0: &str, toks: &[&str]) -> Stri
         // no known-finding class is left after fix-c07-2..5: every oracle applies to every view
         let known_class = false;
         let mut all_futs = vec![];
-        futs_of_views(std::slice::from_ref(&root), &mut all_futs);
+        needed_futs(std::slice::from_ref(&root), &mut all_futs);
         Case {
             env, owner, stream: Some(Box::pin(stream)), ooo, level_b, reference, raw: String::new(), facts: f,
             known_class, dead: false, finished: false, free, all_futs, ended: false,
@@ -1161,22 +1161,26 @@ impl Gen {
                     self.leaf()
                 }
             }
-            12 | 13 => {
-                // a server resource: read synchronously by the children of a boundary, otherwise awaited in a Suspend
+            12 | 13 | 14 => {
+                // a server resource: read synchronously by the children of a boundary or awaited in a Suspend.  Only where
+                // the resource is created together with the future that waits for it (at render time, or with the
+                // boundary): one created later, inside the output of a Suspend, needs an executor turn of its own
                 let k = self.fut();
                 let n = self.r.range(1, 2);
-                if ctx == Ctx::Direct {
-                    let kind = *self.r.pick(&['o', 'r', 'd']);
-                    V::ResRead(kind, k, (0..n).map(|_| self.view(depth - 1, max_f, Ctx::Direct, allow_known)).collect())
-                } else {
-                    let inner = if ctx == Ctx::Top { Ctx::Top } else { Ctx::Nested };
-                    V::ResSuspend(k, (0..n).map(|_| self.view(depth - 1, max_f, inner, allow_known)).collect())
+                match ctx {
+                    Ctx::Direct if self.r.chance(1, 2) => {
+                        let kind = *self.r.pick(&['o', 'r', 'd']);
+                        // the output of the read is only built once the value is there: no sync reads in it
+                        V::ResRead(kind, k, (0..n).map(|_| self.view(depth - 1, max_f, Ctx::Nested, allow_known)).collect())
+                    }
+                    Ctx::Direct => {
+                        V::ResSuspend(k, (0..n).map(|_| self.view(depth - 1, max_f, Ctx::Nested, allow_known)).collect())
+                    }
+                    Ctx::Top => V::ResSuspend(k, (0..n).map(|_| self.view(depth - 1, max_f, Ctx::Top, allow_known)).collect()),
+                    Ctx::Nested => {
+                        V::Suspend(k, (0..n).map(|_| self.view(depth - 1, max_f, Ctx::Nested, allow_known)).collect())
+                    }
                 }
-            }
-            14 => {
-                let k = self.fut();
-                let inner = if ctx == Ctx::Top { Ctx::Top } else { Ctx::Nested };
-                V::ResSuspend(k, vec![self.view(depth - 1, max_f, inner, allow_known)])
             }
             _ => {
                 // a LocalResource read by the children of a boundary (sync read / awaited first): the fallback stays
@@ -1358,6 +1362,43 @@ fn async_nodes(vs: &[V]) -> usize {
             V::Suspense { kids, .. } => 1 + async_nodes(kids),
         })
         .sum()
+}
+
+/// the futures a stream has to wait for: nothing below a boundary that reads a LocalResource at once, only the
+/// awaited future below one that reads it later
+fn needed_futs(vs: &[V], out: &mut Vec<usize>) {
+    fn local_now(kids: &[V]) -> bool {
+        kids.iter().any(|k| match k {
+            V::LocalRead(_) => true,
+            V::El(_, k) | V::Tup(k) | V::List(k) | V::Eb(k) => local_now(k),
+            _ => false,
+        })
+    }
+    fn local_wait(kids: &[V]) -> Option<usize> {
+        kids.iter().find_map(|k| match k {
+            V::LocalAwait(f) => Some(*f),
+            V::El(_, k) | V::Tup(k) | V::List(k) | V::Eb(k) => local_wait(k),
+            _ => None,
+        })
+    }
+    for v in vs {
+        match v {
+            V::Text(_) | V::LocalRead(_) | V::LocalAwait(_) => {}
+            V::Suspend(k, kids) | V::Await(k, kids) | V::ResSuspend(k, kids) | V::ResRead(_, k, kids) => {
+                out.push(*k);
+                needed_futs(kids, out)
+            }
+            V::El(_, k) | V::Tup(k) | V::List(k) | V::Eb(k) => needed_futs(k, out),
+            V::Suspense { kids, .. } => {
+                if local_now(kids) {
+                } else if let Some(f) = local_wait(kids) {
+                    out.push(f)
+                } else {
+                    needed_futs(kids, out)
+                }
+            }
+        }
+    }
 }
 
 fn futs_of_views(vs: &[V], out: &mut Vec<usize>) {
@@ -1588,7 +1629,22 @@ fn main() {
         Cmd::Run { ops, out } => {
             quiet_panics();
             sched::install();
-            run_ops(&ops, &out, op).unwrap();
+            // a panic anywhere in the real code (rendering, an executor task, dropping a case) is a verdict of the
+            // line that caused it, never the end of the run
+            run_ops(&ops, &out, |line| match catch_unwind(AssertUnwindSafe(|| op(line))) {
+                Ok(o) => o,
+                Err(_) => {
+                    CASE.with(|c| {
+                        if let Ok(mut c) = c.try_borrow_mut() {
+                            // the case is unusable; leak it rather than run more of the real code's destructors
+                            std::mem::forget(c.take());
+                        }
+                    });
+                    sched::reset();
+                    "panic ## fail panic".into()
+                }
+            })
+            .unwrap();
             drop_case();
         }
     }
